@@ -26,7 +26,6 @@ import (
 	"io/ioutil"
 	"strings"
 
-	"github.com/blakesmith/ar"
 	"github.com/ProtonMail/go-crypto/openpgp"
 
 	"github.com/sassoftware/relic/v8/lib/pgptools"
@@ -36,7 +35,10 @@ import (
 // certificates must be provided to validate the signatures; if the needed key
 // is missing then an ErrNoKey value is returned.
 func Verify(r io.Reader, keyring openpgp.EntityList, skipDigest bool) (map[string]*pgptools.PgpSignature, error) {
-	reader := ar.NewReader(r)
+	reader, err := newArReader(r)
+	if err != nil {
+		return nil, err
+	}
 	digests := make(map[string]string)
 	sigs := make(map[string][]byte)
 	for {
